@@ -14,8 +14,12 @@
   `MulCoeffsMontgomery(x, y)` is `mulMont x y = ofM (x*y)`, the stored secret key is `toM s`, etc.
 
   The sampled polynomials (`a`, `u`, `e`, …) are INPUTS.  What is modelled about sampling is the call
-  sequence: which sampler is read for which value, in which order, and whether the code uses `Read`
-  or `ReadAndAdd` (`ErrDraw`).
+  sequence: which sampler is read for which value, in which order and at which level.  `Read` followed by
+  `Add` and `ReadAndAdd` both leave `c + e` (for every sampler: ring/sampler_*.go, property C17), so the
+  two are not distinguished.
+
+  This file follows the code AFTER the fixes C03-1 … C03-8 (/verif/fixes): `c1` is stored for every target
+  of degree ≥ 1, `EncryptZero` clears `Value[2:]`, the error follows the `IsMontgomery` flag on every path.
 -/
 import Lattigo.Model.RPoly
 
@@ -25,14 +29,6 @@ namespace Lattigo.RLWE
 structure Mont (α : Type) where
   toM : α → α
   ofM : α → α
-
-/-- One call of the error sampler: `e` is what `Read` writes into a (full-size) buffer, `readAndAdd c`
-    is what `ReadAndAdd` leaves in a target that contained `c` (`none`: the call panics).  For an honest
-    sampler `readAndAdd c = some (c + e)` (`ErrDraw.dense`); `ring.TernarySampler` is not honest, see
-    `RQ.errDraw`. -/
-structure ErrDraw (α : Type) where
-  e : α
-  readAndAdd : α → Option α
 
 /-- `rlwe.MetaData`: the plaintext part (scale, dimensions, batched, bit-reversed) is opaque and
     copied; the two ciphertext flags are interpreted by the code. -/
@@ -55,40 +51,43 @@ structure Ct (α μ : Type) where
 section generic
 variable {α : Type} [Add α] [Mul α] [Neg α] [Sub α]
 
-def ErrDraw.dense (e : α) : ErrDraw α := { e := e, readAndAdd := fun c => some (c + e) }
-
 /-- `ring.MulCoeffsMontgomery(x, y)` = x·y·R⁻¹ -/
 def mulMont (M : Mont α) (x y : α) : α := M.ofM (x * y)
 
-/-- the error is added by `Read`+`Add` when the target is in the NTT domain and by `ReadAndAdd`
-    otherwise (`encryptZeroSkFromC1`, `encryptZeroPkNoP`) -/
-def addErr (isNTT : Bool) (xe : ErrDraw α) (c : α) : Option α :=
-  if isNTT then some (c + xe.e) else xe.readAndAdd c
+/-- `if IsMontgomery { MForm(x) }` -/
+def montIf (M : Mont α) (isMont : Bool) (x : α) : α := if isMont then M.toM x else x
 
-/-! ### secret-key encryption of zero into a `*Ciphertext` (`encryptZeroSk` + `encryptZeroSkFromC1`) -/
+/-- `EncryptZero` first clears the terms of degree ≥ 2 of a `*Ciphertext` target (`Value[i].Zero()`) -/
+def clearTail : List α → List α
+  | c0 :: c1 :: rest => c0 :: c1 :: rest.map (fun o => o - o)
+  | l => l
+
+/-! ### secret-key encryption of zero into a `*Ciphertext` (`encryptZeroSk` + `encryptZeroSkFromC1`)
+
+  The error is always obtained with `Read` into a buffer, switched to the Montgomery domain iff the
+  target is flagged `IsMontgomery`, and added (in the NTT domain or not: transparent here). -/
 
 /-- `old` is the content of `ct.Value` before the call (length = degree+1), `a` the polynomial drawn
-    from the uniform sampler, `sM` the stored secret (`toM s`).  `none` = the Go code panics.
-    Only a degree-1 target receives `a`; for every other degree `c1` is a scratch buffer and
-    `ct.Value[1:]` keeps its previous content. -/
-def encryptZeroSk (M : Mont α) (isNTT : Bool) (old : List α) (a : α) (xe : ErrDraw α) (sM : α) :
-    Option (List α) :=
+    from the uniform sampler, `e` the polynomial drawn from the error sampler, `sM` the stored secret
+    (`toM s`).  `none` = the Go code panics.  A target of degree ≥ 1 receives `a` in `Value[1]`; for a
+    degree-0 (compressed) target `c1` stays in a scratch buffer. -/
+def encryptZeroSk (M : Mont α) (isMont : Bool) (old : List α) (a e sM : α) : Option (List α) :=
+  let c0 := -(mulMont M a sM) + montIf M isMont e
   match old with
   | [] => none
-  | [_, _] => (addErr isNTT xe (-(mulMont M a sM))).map fun c0 => [c0, a]
-  | _ :: rest => (addErr isNTT xe (-(mulMont M a sM))).map fun c0 => c0 :: rest
+  | [_] => some [c0]
+  | _ :: _ :: rest => some (c0 :: a :: rest)
 
 /-! ### public-key encryption of zero -/
 
-/-- `encryptZeroPkNoP` (no auxiliary modulus): `(u·pk0 + e0, u·pk1 + e1)`; `pk0M, pk1M` are the
-    stored (Montgomery) key polynomials; draws in the order `u`, `e0`, `e1`. -/
-def encryptZeroPkNoP (M : Mont α) (isNTT : Bool) (old : List α) (u : α) (xe0 xe1 : ErrDraw α)
-    (pk0M pk1M : α) : Option (List α) :=
+/-- `encryptZeroPkNoP` (no auxiliary modulus): `(u·pk0 + e0, u·pk1 + e1)`, then `MForm` iff
+    `IsMontgomery`; `pk0M, pk1M` are the stored (Montgomery) key polynomials; draws in the order
+    `u`, `e0`, `e1`. -/
+def encryptZeroPkNoP (M : Mont α) (isMont : Bool) (old : List α) (u e0 e1 pk0M pk1M : α) :
+    Option (List α) :=
   match old with
   | _ :: _ :: rest =>
-    match addErr isNTT xe0 (mulMont M u pk0M), addErr isNTT xe1 (mulMont M u pk1M) with
-    | some c0, some c1 => some (c0 :: c1 :: rest)
-    | _, _ => none
+    some (montIf M isMont (mulMont M u pk0M + e0) :: montIf M isMont (mulMont M u pk1M + e1) :: rest)
   | _ => none
 
 /-- `encryptZeroPk` for a `*Ciphertext` (auxiliary modulus present).  `β` is the carrier of `R_{Q·p₀}`
@@ -102,9 +101,20 @@ def encryptZeroPk {β : Type} [Add β] [Mul β] (MQ : Mont α) (MQP : Mont β) (
     let uQP := ext u
     let c0 := mulMont MQP uQP pk0M + ext e0
     let c1 := mulMont MQP uQP pk1M + ext e1
-    let f := fun x => if isMont then MQ.toM x else x
-    some (f (down c0) :: f (down c1) :: rest)
+    some (montIf MQ isMont (down c0) :: montIf MQ isMont (down c1) :: rest)
   | _ => none
+
+/-! ### `EncryptZero` on a `*Ciphertext`, per key kind, as a function of the target's metadata and content -/
+
+def ezSk {μ : Type} (M : Mont α) (a e sM : α) : MetaData μ → List α → Option (List α) :=
+  fun md old => encryptZeroSk M md.isMont (clearTail old) a e sM
+
+def ezPkNoP {μ : Type} (M : Mont α) (u e0 e1 pk0M pk1M : α) : MetaData μ → List α → Option (List α) :=
+  fun md old => encryptZeroPkNoP M md.isMont (clearTail old) u e0 e1 pk0M pk1M
+
+def ezPk {μ β : Type} [Add β] [Mul β] (MQ : Mont α) (MQP : Mont β) (ext : α → β) (down : β → α)
+    (u e0 e1 : α) (pk0M pk1M : β) : MetaData μ → List α → Option (List α) :=
+  fun md old => encryptZeroPk MQ MQP ext down md.isMont (clearTail old) u e0 e1 pk0M pk1M
 
 /-! ### `addPtToCt`, `Encrypt` -/
 
@@ -236,33 +246,6 @@ def modDown (nQ : Nat) (x : RQ) : RQ :=
     (row.zip delta).map fun (c, d) => ((((c : Int) - d) % (q : Int)).toNat * pinv) % q
   ⟨x.ci, { qs := qs, c := rows }⟩
 
-/-- `TernarySampler.sampleSparse` used through `ReadAndAdd`: the selected positions get `c + e`, every
-    position that was NOT selected is overwritten with 0 (the final loop of `sampleSparse` runs for
-    `Read` and `ReadAndAdd` alike).  A position is selected iff the drawn coefficient is non-zero. -/
-def sparseReadAndAdd (e c : RQ) : RQ :=
-  let s := c + e
-  ⟨c.ci, { qs := s.p.qs, c := (s.p.c.zip e.p.c).map fun (srow, erow) =>
-    (srow.zip erow).map fun (v, ev) => if ev == 0 then 0 else v }⟩
-
-/-- the kind of the error sampler (`ring.NewSampler` on `params.Xe()`) -/
-inductive XeKind where
-  | gauss      -- ring.GaussianSampler
-  | ternaryP   -- ring.TernarySampler, Ternary{P}
-  | ternaryH   -- ring.TernarySampler, Ternary{H} (sampleSparse)
-  deriving BEq, Repr, DecidableEq
-
-/-- One draw of `xeSampler.AtLevel(level)`.
-    `GaussianSampler.AtLevel` works.  `TernarySampler.AtLevel` copies the field `sample`, a method value
-    bound to the ORIGINAL sampler, so the returned sampler still writes all `maxLevel+1` rows: `Read` into
-    the encryptor's full-size buffers is harmless, `ReadAndAdd` on a ciphertext polynomial with fewer rows
-    panics (index out of range).  On top of that `sampleSparse` zeroes the unselected positions. -/
-def errDraw (kind : XeKind) (level maxLevel : Nat) (e : RQ) : ErrDraw RQ :=
-  match kind with
-  | .gauss => ErrDraw.dense e
-  | .ternaryP => { e := e, readAndAdd := fun c => if level < maxLevel then none else some (c + e) }
-  | .ternaryH => { e := e, readAndAdd := fun c =>
-      if level < maxLevel then none else some (sparseReadAndAdd e c) }
-
 /-- which encryption key the encryptor holds, as stored (NTT pulled back, Montgomery kept), full level -/
 inductive Key where
   | none
@@ -276,8 +259,6 @@ structure Draws where
   u : RQ
   e0 : RQ
   e1 : RQ
-  xe : XeKind
-  maxLevel : Nat
 
 /-- `Encryptor.EncryptZero` on a `*Ciphertext` whose polynomials have `l+1` rows.
     `hasP` is `params.PCount() ≠ 0`, `p0` the first prime of P. `none` = panic (the key-less case is
@@ -286,16 +267,13 @@ def encryptZeroAt (key : Key) (hasP : Bool) (p0 : Nat) (l : Nat) (d : Draws) {μ
     (md : MetaData μ) (old : List RQ) : Option (List RQ) :=
   match key with
   | .none => none
-  | .sk sQ =>
-    encryptZeroSk mont md.isNTT old d.a (errDraw d.xe l d.maxLevel d.e0) (sQ.atLevel l)
+  | .sk sQ => ezSk mont d.a d.e0 (sQ.atLevel l) md old
   | .pk pk0Q pk0P pk1Q pk1P =>
     if hasP then
-      let ps := [p0]
-      encryptZeroPk mont mont (extSmall ps) (modDown (l + 1)) md.isMont old d.u d.e0 d.e1
-        (joinQP (pk0Q.atLevel l) (pk0P.atLevel 0)) (joinQP (pk1Q.atLevel l) (pk1P.atLevel 0))
+      ezPk mont mont (extSmall [p0]) (modDown (l + 1)) d.u d.e0 d.e1
+        (joinQP (pk0Q.atLevel l) (pk0P.atLevel 0)) (joinQP (pk1Q.atLevel l) (pk1P.atLevel 0)) md old
     else
-      encryptZeroPkNoP mont md.isNTT old d.u (errDraw d.xe l d.maxLevel d.e0) (errDraw d.xe l d.maxLevel d.e1)
-        (pk0Q.atLevel l) (pk1Q.atLevel l)
+      ezPkNoP mont d.u d.e0 d.e1 (pk0Q.atLevel l) (pk1Q.atLevel l) md old
 
 /-- result of an API call -/
 inductive Res (τ : Type) where
